@@ -31,3 +31,6 @@ func (c *Config) VerifErr() error   { return c.err }
 func (c *Config) VerifFn() (base, cap, jitter int) {
 	return c.fnCfg.base, c.fnCfg.cap, c.fnCfg.jitter
 }
+
+// VerifExpo is expo (unexported).
+func VerifExpo(base, cap, n int) int { return expo(base, cap, n) }
